@@ -1,6 +1,691 @@
+/-
+  C04 — written HDF5 files conform to the BIOM 2.1 layout; both matrix views agree.
+  (This file also holds the HDF5 model shared with C01: namespace `Biom.Hdf5`.)
+
+  * `H5 α`  — the logical tree of a BIOM 2.1 file as raw h5py shows it: root attributes, the two
+    axis groups with their `ids` dataset, `metadata` / `group-metadata` / `matrix` groups; every
+    dataset carries an element-kind tag, its shape (1-D cells or 2-D rows) and its entries.
+  * `toH5`  — transcription of `Table.to_hdf5` with `general_formatter` and
+    `vlen_list_of_str_formatter` (biom/table.py).  The two matrix views are PARAMETERS (`csr`,
+    `csc`): scipy's `asformat` is an external whose contract (well formed, dense content `D`
+    resp. `Dᵀ`, no stored zeros because `nnz` has just eliminated them) is a hypothesis of the
+    theorems and is monitored on every written file by `C04.holds`.
+  * `specDecode` — a reader written ONLY from doc/documentation/format_versions/biom-2.1.rst.
+  * `C04.holds` — the property, on the raw tree of a written file and the table that was written.
+
+  Byte strings are an opaque token type (`Bytes`); utf-8 is a parameter `Utf8` (encode, decode,
+  the empty byte string) with a round-trip hypothesis.  In the driver the harness hands over bytes
+  already decoded as utf-8, so the codec there is the identity.  `datetime.isoformat` /
+  `fromisoformat` are a parameter `DateC` in the same way.
+-/
 import BiomModel.Codec
 open Lean
+
+namespace Biom.Hdf5
+
+abbrev Bytes := String
+
+structure Utf8 where
+  enc : String → Bytes
+  dec : Bytes → Except Err String
+  empty : Bytes
+
+/-- the recorded codec contract: decoding undoes encoding; only the empty text encodes to `b''` -/
+structure Utf8.RT (c : Utf8) : Prop where
+  rt : ∀ s, c.dec (c.enc s) = .ok s
+  encEmpty : c.enc "" = c.empty
+  encNonEmpty : ∀ s, c.enc s = c.empty → s = ""
+
+def Utf8.ident : Utf8 := ⟨fun s => s, fun b => .ok b, ""⟩
+
+structure DateC (δ : Type) where
+  iso : δ → String
+  parse : String → Option δ
+
+def DateC.ident : DateC String := ⟨fun s => s, fun s => some s⟩
+
+/-- what `from_hdf5` leaves in `create_date`: a datetime, or the raw text when it does not parse -/
+inductive DateVal (δ : Type) where
+  | date (d : δ)
+  | text (s : String)
+  deriving Repr, DecidableEq, BEq
+
+/-- one metadata value (per ID and category). `list` stands for a Python list or tuple. -/
+inductive MdVal (α : Type) where
+  | text (s : String)
+  | int (i : Int)
+  | float (a : α)
+  | bool (b : Bool)
+  | list (l : List String)
+  | none
+  deriving Repr, DecidableEq, BEq, Inhabited
+
+abbrev MdE (α : Type) := List (String × MdVal α)
+
+/-- the table being written: content plus the header fields `to_hdf5` reads -/
+structure Src (α : Type) where
+  obs : List Id
+  samp : List Id
+  rows : List (List α)
+  omd : Option (List (MdE α)) := none
+  smd : Option (List (MdE α)) := none
+  ttype : Option String := none
+  tableId : Option String := none
+  /-- group metadata: key ↦ (data_type, payload); `[]` stands for `None` -/
+  ogmd : List (String × String × String) := []
+  sgmd : List (String × String × String) := []
+  deriving Repr, DecidableEq, BEq
+
+def Src.ids (t : Src α) : Axis → List Id
+  | .obs => t.obs
+  | .samp => t.samp
+def Src.md (t : Src α) : Axis → Option (List (MdE α))
+  | .obs => t.omd
+  | .samp => t.smd
+def Src.gmd (t : Src α) : Axis → List (String × String × String)
+  | .obs => t.ogmd
+  | .samp => t.sgmd
+
+/-! ### the logical tree -/
+
+inductive Kind where
+  | f64 | i32 | i64 | bool | vlenStr | fixStr | other
+  deriving Repr, DecidableEq, BEq, Inhabited
+
+inductive Cell (α : Type) where
+  | f (a : α)
+  | i (n : Int)
+  | b (v : Bool)
+  | s (x : Bytes)
+  deriving Repr, DecidableEq, BEq
+
+inductive Data (α : Type) where
+  | d1 (cells : List (Cell α))
+  | d2 (ncol : Nat) (rows : List (List (Cell α)))
+  | opaque
+  deriving Repr, DecidableEq, BEq
+
+structure DSet (α : Type) where
+  kind : Kind
+  data : Data α
+  dataType : Option String := none
+  deriving Repr, DecidableEq, BEq
+
+inductive Attr where
+  | str (s : String)
+  | ints (l : List Int)
+  | int (n : Int)
+  | other
+  deriving Repr, DecidableEq, BEq
+
+structure MatGrp (α : Type) where
+  data : Option (DSet α)
+  indices : Option (DSet α)
+  indptr : Option (DSet α)
+  deriving Repr, DecidableEq, BEq
+
+structure AxGrp (α : Type) where
+  ids : Option (DSet α)
+  md : Option (List (String × DSet α))
+  gmd : Option (List (String × DSet α))
+  matrix : Option (MatGrp α)
+  deriving Repr, DecidableEq, BEq
+
+structure H5 (α : Type) where
+  attrs : List (String × Attr)
+  obs : Option (AxGrp α)
+  samp : Option (AxGrp α)
+  deriving Repr, DecidableEq, BEq
+
+def H5.ax (h : H5 α) : Axis → Option (AxGrp α)
+  | .obs => h.obs
+  | .samp => h.samp
+
+/-- one element of `dset[:]` as the reader's loop sees it: a scalar (1-D) or a row (2-D) -/
+inductive Row (α : Type) where
+  | scalar (c : Cell α)
+  | vec (cs : List (Cell α))
+  deriving Repr, DecidableEq, BEq
+
+def Data.rowsOf : Data α → Option (List (Row α))
+  | .d1 cells => some (cells.map .scalar)
+  | .d2 _ rows => some (rows.map .vec)
+  | .opaque => none
+
+/-! ### `/` ↔ `@@SLASH@@` (Python `str.replace`: leftmost, non-overlapping) -/
+
+def slashPat : List Char := ['@', '@', 'S', 'L', 'A', 'S', 'H', '@', '@']
+
+def sanL : List Char → List Char
+  | [] => []
+  | c :: cs => if c = '/' then slashPat ++ sanL cs else c :: sanL cs
+
+/-- `skip` characters of an already matched pattern are still to be dropped -/
+def unsanGo : Nat → List Char → List Char
+  | _, [] => []
+  | skip + 1, _ :: cs => unsanGo skip cs
+  | 0, c :: cs => if slashPat.isPrefixOf (c :: cs) then '/' :: unsanGo 8 cs else c :: unsanGo 0 cs
+
+def sanitize (s : String) : String := String.ofList (sanL s.toList)
+def unsanitize (s : String) : String := String.ofList (unsanGo 0 s.toList)
+
+/-! ### `to_hdf5` -/
+
+def isSpecial (k : String) : Bool :=
+  k == "taxonomy" || k == "Taxonomy" || k == "KEGG_Pathways" || k == "collapsed_ids"
+
+def MdVal.isText : MdVal α → Bool | .text _ => true | _ => false
+def MdVal.isInt : MdVal α → Bool | .int _ => true | _ => false
+def MdVal.isFloat : MdVal α → Bool | .float _ => true | _ => false
+def MdVal.isBool : MdVal α → Bool | .bool _ => true | _ => false
+def MdVal.isList : MdVal α → Bool | .list _ => true | _ => false
+def MdVal.isNum : MdVal α → Bool | .int _ => true | .float _ => true | .bool _ => true | _ => false
+
+/-- `m[header]` on a `defaultdict(lambda: None)` -/
+def colOf (md : List (MdE α)) (k : String) : List (MdVal α) :=
+  md.map (fun e => (e.lookup k).getD .none)
+
+def strCell (c : Utf8) (s : String) : Cell α := .s (c.enc s)
+
+def strDs (c : Utf8) (l : List String) : DSet α :=
+  { kind := .vlenStr, data := .d1 (l.map (strCell c)) }
+
+def maxL (l : List Nat) : Nat := l.foldr max 0
+
+def padRow (c : Utf8) (w : Nat) (l : List String) : List (Cell α) :=
+  l.map (strCell c) ++ List.replicate (w - l.length) (.s c.empty)
+
+/-- rows of `vlen_list_of_str_formatter`: `None` is an all-padding row -/
+def listRow (c : Utf8) (w : Nat) : MdVal α → List (Cell α)
+  | .list l => padRow c w l
+  | _ => List.replicate w (.s c.empty)
+
+def listLens : List (MdVal α) → List Nat
+  | [] => []
+  | .list l :: vs => l.length :: listLens vs
+  | _ :: vs => listLens vs
+
+/-- Python `str.split(';')` then `strip()` of each part (ASCII blanks) — only reached for a flat
+text under `taxonomy`, which is outside the domain of the property -/
+def splitTax (s : String) : List String :=
+  (s.splitOn ";").map (fun p => p.trimAscii.toString)
+
+/-- `vlen_list_of_str_formatter(grp, header, md, compression)`; the dataset name is NOT escaped -/
+def listFmt (c : Utf8) (k : String) (col : List (MdVal α)) : Except Err (String × DSet α) :=
+  if col.any MdVal.isNum then .error .type          -- len() of a number
+  else
+    let col' : Except Err (List (MdVal α)) :=
+      if col.any MdVal.isText then
+        if k == "taxonomy" && col.all MdVal.isText then
+          .ok (col.map (fun v => match v with | .text s => .list (splitTax s) | v => v))
+        else .error .type
+      else .ok col
+    match col' with
+    | .error e => .error e
+    | .ok col' =>
+      let lens := listLens col'
+      if lens.isEmpty then .error .value             -- max([])
+      else
+        let w := maxL lens
+        .ok (k, { kind := .vlenStr, data := .d2 w (col'.map (listRow c w)) })
+
+def noneToText : MdVal α → MdVal α
+  | .none => .text ""
+  | v => v
+
+/-- `general_formatter(grp, header, md, compression)` -/
+def generalFmt (c : Utf8) (k : String) (col : List (MdVal α)) : Except Err (String × DSet α) :=
+  let name := sanitize k
+  if col.all MdVal.isText then
+    .ok (name, { kind := .vlenStr, data := .d1 (col.map (fun v => match v with | .text s => strCell c s | _ => .s c.empty)) })
+  else if col.all MdVal.isList then listFmt c k col
+  else
+    let col' := col.map noneToText
+    if col'.all MdVal.isText then
+      .ok (name, { kind := .vlenStr, data := .d1 (col'.map (fun v => match v with | .text s => strCell c s | _ => .s c.empty)) })
+    else if col'.all MdVal.isInt then
+      .ok (name, { kind := .i64, data := .d1 (col'.map (fun v => match v with | .int i => .i i | _ => .i 0)) })
+    else if col'.all MdVal.isFloat then
+      .ok (name, { kind := .f64, data := .d1 (col'.filterMap (fun v => match v with | .float a => some (.f a) | _ => none)) })
+    else if col'.all MdVal.isBool then
+      .ok (name, { kind := .bool, data := .d1 (col'.map (fun v => match v with | .bool b => .b b | _ => .b false)) })
+    else
+      -- "try our best": numpy picks a common dtype for the mixture; not modelled
+      .ok (name, { kind := .other, data := .opaque })
+
+def fmtCategory (c : Utf8) (k : String) (col : List (MdVal α)) : Except Err (String × DSet α) :=
+  if isSpecial k then listFmt c k col else generalFmt c k col
+
+def keysOf (e : MdE α) : List String := e.map (·.1)
+
+def sameKeys (a b : MdE α) : Bool :=
+  (keysOf a).all (fun k => (keysOf b).contains k) && (keysOf b).all (fun k => (keysOf a).contains k)
+
+/-- the `if md:` block: categories must agree on every ID, one dataset per category of `md[0]` -/
+def mdDsets (c : Utf8) (md : Option (List (MdE α))) : Except Err (List (String × DSet α)) :=
+  match md with
+  | none => .ok []
+  | some [] => .ok []
+  | some (e0 :: es) =>
+    if es.any (fun e => !sameKeys e e0) then .error .value
+    else (keysOf e0).mapM (fun k => fmtCategory c k (colOf (e0 :: es) k))
+
+def natCell (n : Nat) : Cell α := .i (Int.ofNat n)
+
+/-- `create_dataset(..., shape=(len_data,), data=…)` refuses data of another length -/
+def matGrp (nnz : Nat) (cs : CS α) : Except Err (MatGrp α) :=
+  if cs.data.length = nnz ∧ cs.indices.length = nnz then
+    .ok { data := some { kind := .f64, data := .d1 (cs.data.map .f) },
+          indices := some { kind := .i32, data := .d1 (cs.indices.map natCell) },
+          indptr := some { kind := .i32, data := .d1 (cs.indptr.map natCell) } }
+  else .error .value
+
+def gmdDsets (c : Utf8) (g : List (String × String × String)) : List (String × DSet α) :=
+  g.map (fun kv => (kv.1, { kind := .vlenStr, data := .d1 [strCell c kv.2.2], dataType := some kv.2.1 }))
+
+def axGrp (c : Utf8) (ids : List Id) (md : Option (List (MdE α))) (gmd : List (String × String × String))
+    (nnz : Nat) (cs : CS α) : Except Err (AxGrp α) := do
+  let mds ← mdDsets c md
+  let m ← matGrp nnz cs
+  let idsDs : DSet α :=
+    if ids.length > 0 then strDs c ids
+    else { kind := .vlenStr, data := .d1 [] }      -- the empty-axis branch
+  pure { ids := some idsDs, md := some mds, gmd := some (gmdDsets c gmd), matrix := some m }
+
+def idAttr (tid : Option String) : String :=
+  match tid with
+  | some s => if s = "" then "No Table ID" else s
+  | none => "No Table ID"
+
+def typeAttr (ty : Option String) : String :=
+  match ty with
+  | some s => s
+  | none => ""
+
+/-- `Table.to_hdf5(h5grp, generated_by, compress, creation_date=date)`; `now` is what the clock
+returns when no date is given; `compress` is not an input of the logical tree. -/
+def toH5 (c : Utf8) (dc : DateC δ) (t : Src α) (genBy : String) (date : Option δ) (now : δ)
+    (csr csc : CS α) : Except Err (H5 α) := do
+  let nnz := csr.data.length
+  let attrs : List (String × Attr) :=
+    [("id", .str (idAttr t.tableId)), ("type", .str (typeAttr t.ttype)),
+     ("format-url", .str "http://biom-format.org"), ("format-version", .ints [2, 1]),
+     ("generated-by", .str genBy), ("creation-date", .str (dc.iso (date.getD now))),
+     ("shape", .ints [Int.ofNat csr.nMajor, Int.ofNat csr.nMinor]), ("nnz", .int (Int.ofNat nnz))]
+  let o ← axGrp c t.obs t.omd t.ogmd nnz csr
+  let s ← axGrp c t.samp t.smd t.sgmd nnz csc
+  pure { attrs := attrs, obs := some o, samp := some s }
+
+/-! ### a reader written from biom-2.1.rst only -/
+
+def reqE (o : Option β) : Except Err β :=
+  match o with
+  | some x => .ok x
+  | none => .error .key
+
+def cellNat : Cell α → Except Err Nat
+  | .i n => if 0 ≤ n then .ok n.toNat else .error .value
+  | _ => .error .type
+
+def cellVal : Cell α → Except Err α
+  | .f a => .ok a
+  | _ => .error .type
+
+def cellStr (c : Utf8) : Cell α → Except Err String
+  | .s x => c.dec x
+  | _ => .error .type
+
+/-- "<string> or <variable length string> A (N,) dataset" -/
+def specIds (c : Utf8) (d : Option (DSet α)) : Except Err (List String) := do
+  let d ← reqE d
+  if d.kind = .vlenStr ∨ d.kind = .fixStr then
+    match d.data with
+    | .d1 cells => cells.mapM (cellStr c)
+    | _ => .error .value
+  else .error .type
+
+/-- "<int32> A (…,) dataset" -/
+def specNats (d : Option (DSet α)) : Except Err (List Nat) := do
+  let d ← reqE d
+  if d.kind = .i32 then
+    match d.data with
+    | .d1 cells => cells.mapM cellNat
+    | _ => .error .value
+  else .error .type
+
+/-- "<float64> A (nnz,) dataset" -/
+def specVals (d : Option (DSet α)) : Except Err (List α) := do
+  let d ← reqE d
+  if d.kind = .f64 then
+    match d.data with
+    | .d1 cells => cells.mapM cellVal
+    | _ => .error .value
+  else .error .type
+
+/-- the three datasets of a matrix group as a compressed matrix of the stated dimensions -/
+def readView (major minor : Nat) (g : Option (MatGrp α)) : Except Err (CS α) := do
+  let g ← reqE g
+  let data ← specVals g.data
+  let indices ← specNats g.indices
+  let indptr ← specNats g.indptr
+  pure { nMajor := major, nMinor := minor, indptr := indptr, indices := indices, data := data }
+
+/-- decode one view: the offsets must describe `major` vectors over `nnz` entries -/
+def specView (major minor nnz : Nat) (g : Option (MatGrp α)) : Except Err (List (List α)) := do
+  let cs ← readView major minor g
+  if cs.wfb && cs.data.length == nnz then .ok cs.toDense else .error .value
+
+def attrStr (h : H5 α) (k : String) : Except Err String :=
+  match h.attrs.lookup k with
+  | some (.str s) => .ok s
+  | some _ => .error .type
+  | none => .error .key
+
+def attrNat (h : H5 α) (k : String) : Except Err Nat :=
+  match h.attrs.lookup k with
+  | some (.int n) => if 0 ≤ n then .ok n.toNat else .error .value
+  | some _ => .error .type
+  | none => .error .key
+
+def attrShape (h : H5 α) : Except Err (Nat × Nat) :=
+  match h.attrs.lookup "shape" with
+  | some (.ints [n, m]) => if 0 ≤ n ∧ 0 ≤ m then .ok (n.toNat, m.toNat) else .error .value
+  | some _ => .error .type
+  | none => .error .key
+
+structure SpecTable (α : Type) where
+  obs : List String
+  samp : List String
+  byObs : List (List α)
+  bySamp : List (List α)
+  deriving Repr, DecidableEq, BEq
+
+/-- N x M from `shape`, `nnz`, IDs from `observation/ids` and `sample/ids`, the matrix once from
+the compressed-row copy and once from the compressed-column copy (transposed back to N x M) -/
+def specDecode [Zero α] (c : Utf8) (h : H5 α) : Except Err (SpecTable α) := do
+  let (n, m) ← attrShape h
+  let nnz ← attrNat h "nnz"
+  let o ← reqE h.obs
+  let s ← reqE h.samp
+  let obs ← specIds c o.ids
+  let samp ← specIds c s.ids
+  if obs.length = n ∧ samp.length = m then
+    let byObs ← specView n m nnz o.matrix
+    let byCol ← specView m n nnz s.matrix
+    pure { obs := obs, samp := samp, byObs := byObs, bySamp := transposeGrid n byCol }
+  else .error .value
+
+end Biom.Hdf5
+
+/-! ### the property -/
 namespace Biom.C04
-/-- stub: not built yet -/
-def handle (_req : Json) : Codec.R Json := .error "C04: model not built yet"
+open Biom.Hdf5
+
+variable {α : Type}
+
+/-- number of non-zero cells of a grid -/
+def nnzGrid [Zero α] [DecidableEq α] (rows : List (List α)) : Nat :=
+  (rows.map (fun r => r.countP (fun v => v ≠ 0))).foldr (· + ·) 0
+
+def isStrAttr (h : H5 α) (k : String) : Bool :=
+  match h.attrs.lookup k with
+  | some (.str _) => true
+  | _ => false
+
+/-- required top-level attributes with their kinds; `shape`, `nnz` are the true ones -/
+def attrsOK [Zero α] [DecidableEq α] (t : Src α) (h : H5 α) : Bool :=
+  isStrAttr h "id" && isStrAttr h "type" && isStrAttr h "format-url" && isStrAttr h "generated-by" &&
+  isStrAttr h "creation-date" &&
+  h.attrs.lookup "format-version" == some (.ints [2, 1]) &&
+  h.attrs.lookup "shape" == some (.ints [Int.ofNat t.obs.length, Int.ofNat t.samp.length]) &&
+  h.attrs.lookup "nnz" == some (.int (Int.ofNat (nnzGrid t.rows)))
+
+def axGroupsOK (g : Option (AxGrp α)) : Bool :=
+  match g with
+  | some g => g.md.isSome && g.gmd.isSome && g.matrix.isSome
+  | none => false
+
+/-- `ids`: a text dataset (also when empty) with one entry per ID, in axis order -/
+def idsOK [DecidableEq α] (c : Utf8) (ids : List Id) (g : Option (AxGrp α)) : Bool :=
+  match g with
+  | some g => specIds c g.ids == .ok ids
+  | none => false
+
+/-- a stored scalar / row stands for a metadata value -/
+def represents [DecidableEq α] (c : Utf8) : MdVal α → Row α → Bool
+  | .text s, .scalar (.s x) => c.dec x == .ok s
+  | .int i, .scalar (.i j) => i == j
+  | .float a, .scalar (.f b) => a == b
+  | .bool a, .scalar (.b b) => a == b
+  | .list l, .vec cells =>
+      cells.all (fun x => match x with | .s _ => true | _ => false) &&
+      (cells.filter (fun x => x != .s c.empty)).mapM (cellStr c) == .ok l
+  | .none, .scalar (.s x) => x == c.empty
+  | .none, .vec cells => cells.all (fun x => x == .s c.empty)
+  | _, _ => false
+
+def allRep [DecidableEq α] (c : Utf8) : List (MdVal α) → List (Row α) → Bool
+  | [], [] => true
+  | v :: vs, r :: rs => represents c v r && allRep c vs rs
+  | _, _ => false
+
+def dsRows (d : DSet α) : Nat :=
+  match d.data with
+  | .d1 cells => cells.length
+  | .d2 _ rows => rows.length
+  | .opaque => 0
+
+def dsRect (d : DSet α) : Bool :=
+  match d.data with
+  | .d1 _ => true
+  | .d2 w rows => rows.all (fun r => r.length == w)
+  | .opaque => false
+
+/-- every metadata dataset has one entry per ID; every category of the table has its dataset,
+entry `i` standing for the value of ID `i` -/
+def mdOK [DecidableEq α] (c : Utf8) (ids : List Id) (md : Option (List (MdE α))) (g : Option (AxGrp α)) : Bool :=
+  match g with
+  | none => false
+  | some g =>
+    match g.md with
+    | none => false
+    | some ds =>
+      ds.all (fun nd => dsRect nd.2 && dsRows nd.2 == ids.length) &&
+      (match md with
+       | none => true
+       | some [] => true
+       | some (e0 :: es) =>
+         (keysOf e0).all (fun k =>
+           match ds.lookup (sanitize k) with
+           | none => false
+           | some d =>
+             match d.data.rowsOf with
+             | none => false
+             | some rs => allRep c (colOf (e0 :: es) k) rs))
+
+/-- one matrix group: kinds, lengths, offsets, index range, no duplicate index, no stored zero -/
+def viewOK [Zero α] [DecidableEq α] (major minor nnz : Nat) (g : Option (AxGrp α)) : Bool :=
+  match g with
+  | none => false
+  | some g =>
+    match readView major minor g.matrix with
+    | .error _ => false
+    | .ok cs => cs.wfb && cs.data.length == nnz && cs.indices.length == nnz && cs.data.all (fun v => v ≠ 0)
+
+/-- a reader following only the specification recovers IDs and grid, from BOTH views -/
+def decodeOK [Zero α] [DecidableEq α] (c : Utf8) (t : Src α) (h : H5 α) : Bool :=
+  match specDecode c h with
+  | .error _ => false
+  | .ok st => st.obs == t.obs && st.samp == t.samp && st.byObs == t.rows && st.bySamp == t.rows
+
+def clauses [Zero α] [DecidableEq α] (c : Utf8) (t : Src α) (h : H5 α) : List (String × Bool) :=
+  let n := t.obs.length
+  let m := t.samp.length
+  let z := nnzGrid t.rows
+  [("attributes", attrsOK t h),
+   ("groups", axGroupsOK h.obs && axGroupsOK h.samp),
+   ("observation/ids", idsOK c t.obs h.obs),
+   ("sample/ids", idsOK c t.samp h.samp),
+   ("observation/metadata", mdOK c t.obs t.omd h.obs),
+   ("sample/metadata", mdOK c t.samp t.smd h.samp),
+   ("observation/matrix", viewOK n m z h.obs),
+   ("sample/matrix", viewOK m n z h.samp),
+   ("decode", decodeOK c t h)]
+
+def holds [Zero α] [DecidableEq α] (c : Utf8) (t : Src α) (h : H5 α) : Bool :=
+  (clauses c t h).all (·.2)
+
+/-! ### JSON glue -/
+open Codec
+
+def asMdVal (j : Json) : R (MdVal Rat) := do
+  match (← strF j "t") with
+  | "text" => pure (.text (← strF j "v"))
+  | "int" => do
+      match (← strF j "v").toInt? with
+      | some i => pure (.int i)
+      | none => .error "bad int"
+  | "float" => pure (.float (← asRat (← fld j "v")))
+  | "bool" => pure (.bool (← boolF j "v"))
+  | "list" => pure (.list (← listF asStr j "v"))
+  | "none" => pure .none
+  | s => .error s!"bad md value kind {s}"
+
+def asPair (f : Json → R β) (j : Json) : R (String × β) := do
+  match (← asArr j) with
+  | [k, v] => pure ((← asStr k), (← f v))
+  | _ => .error "pair expected"
+
+def asMdE (j : Json) : R (MdE Rat) := asList (asPair asMdVal) j
+
+def asGmd (j : Json) : R (String × String × String) := do
+  match (← asArr j) with
+  | [k, d, v] => pure ((← asStr k), (← asStr d), (← asStr v))
+  | _ => .error "group metadata triple expected"
+
+def asSrc (j : Json) : R (Src Rat) := do
+  pure { obs := (← listF asStr j "obs"), samp := (← listF asStr j "samp"),
+         rows := (← listF (asList asRat) j "rows"),
+         omd := (← optF (asList asMdE) j "omd"), smd := (← optF (asList asMdE) j "smd"),
+         ttype := (← optF asStr j "type"), tableId := (← optF asStr j "table_id"),
+         ogmd := (← listF asGmd j "ogmd"), sgmd := (← listF asGmd j "sgmd") }
+
+def asKind (s : String) : Kind :=
+  match s with
+  | "f64" => .f64 | "i32" => .i32 | "i64" => .i64 | "bool" => .bool
+  | "vlenStr" => .vlenStr | "fixStr" => .fixStr | _ => .other
+
+def asCell (k : Kind) (j : Json) : R (Cell Rat) :=
+  match k with
+  | .f64 => do pure (.f (← asRat j))
+  | .i32 | .i64 => do
+      match j with
+      | .str s => match s.toInt? with
+        | some i => pure (.i i)
+        | none => .error "bad int cell"
+      | v => do pure (.i (← asInt v))
+  | .bool => do pure (.b (← asBool j))
+  | _ => do pure (.s (← asStr j))
+
+def asDSet (j : Json) : R (DSet Rat) := do
+  let k := asKind (← strF j "kind")
+  let dt ← optF asStr j "data_type"
+  let dim ← natF j "d"
+  if k == .other then pure { kind := k, data := .opaque, dataType := dt }
+  else if dim == 1 then
+    pure { kind := k, data := .d1 (← listF (asCell k) j "cells"), dataType := dt }
+  else if dim == 2 then
+    pure { kind := k, data := .d2 (← natF j "ncol") (← listF (asList (asCell k)) j "cells"), dataType := dt }
+  else pure { kind := k, data := .opaque, dataType := dt }
+
+def asAttr (j : Json) : R Attr := do
+  match (← strF j "k") with
+  | "str" => pure (.str (← strF j "v"))
+  | "ints" => pure (.ints (← listF asInt j "v"))
+  | "int" => pure (.int (← intF j "v"))
+  | _ => pure .other
+
+def asMat (j : Json) : R (MatGrp Rat) := do
+  pure { data := (← optF asDSet j "data"), indices := (← optF asDSet j "indices"),
+         indptr := (← optF asDSet j "indptr") }
+
+def asAx (j : Json) : R (AxGrp Rat) := do
+  pure { ids := (← optF asDSet j "ids"), md := (← optF (asList (asPair asDSet)) j "metadata"),
+         gmd := (← optF (asList (asPair asDSet)) j "group-metadata"), matrix := (← optF asMat j "matrix") }
+
+def asH5 (j : Json) : R (H5 Rat) := do
+  pure { attrs := (← listF (asPair asAttr) j "attrs"), obs := (← optF asAx j "observation"),
+         samp := (← optF asAx j "sample") }
+
+def cellToJson : Cell Rat → Json
+  | .f a => ratToJson a
+  | .i n => .str (toString n)
+  | .b v => .bool v
+  | .s x => .str x
+
+def kindName : Kind → String
+  | .f64 => "f64" | .i32 => "i32" | .i64 => "i64" | .bool => "bool"
+  | .vlenStr => "vlenStr" | .fixStr => "fixStr" | .other => "other"
+
+def dsetToJson (d : DSet Rat) : Json :=
+  let base := [("kind", Json.str (kindName d.kind)), ("data_type", optToJson Json.str d.dataType)]
+  match d.data with
+  | .d1 cells => Json.mkObj (base ++ [("d", toJson (1 : Nat)), ("cells", .arr (cells.map cellToJson).toArray)])
+  | .d2 w rows => Json.mkObj (base ++ [("d", toJson (2 : Nat)), ("ncol", toJson w),
+      ("cells", .arr (rows.map (fun r => Json.arr (r.map cellToJson).toArray)).toArray)])
+  | .opaque => Json.mkObj (base ++ [("d", toJson (0 : Nat))])
+
+def attrToJson : Attr → Json
+  | .str s => Json.mkObj [("k", "str"), ("v", .str s)]
+  | .ints l => Json.mkObj [("k", "ints"), ("v", .arr (l.map (fun (i : Int) => toJson i)).toArray)]
+  | .int n => Json.mkObj [("k", "int"), ("v", toJson n)]
+  | .other => Json.mkObj [("k", "other")]
+
+/-- name ↦ dataset lists become JSON objects, so that creation order is not compared -/
+def namedToJson (l : List (String × DSet Rat)) : Json := Json.mkObj (l.map (fun nd => (nd.1, dsetToJson nd.2)))
+
+def matToJson (m : MatGrp Rat) : Json :=
+  Json.mkObj [("data", optToJson dsetToJson m.data), ("indices", optToJson dsetToJson m.indices),
+    ("indptr", optToJson dsetToJson m.indptr)]
+
+def axToJson (g : AxGrp Rat) : Json :=
+  Json.mkObj [("ids", optToJson dsetToJson g.ids), ("metadata", optToJson namedToJson g.md),
+    ("group-metadata", optToJson namedToJson g.gmd), ("matrix", optToJson matToJson g.matrix)]
+
+def h5ToJson (h : H5 Rat) : Json :=
+  Json.mkObj [("attrs", Json.mkObj (h.attrs.map (fun kv => (kv.1, attrToJson kv.2)))),
+    ("observation", optToJson axToJson h.obs), ("sample", optToJson axToJson h.samp)]
+
+def firstFailing (cl : List (String × Bool)) : Verdict :=
+  match cl.find? (fun p => !p.2) with
+  | some p => some p.1
+  | none => none
+
+def specToJson (st : SpecTable Rat) : Json :=
+  Json.mkObj [("obs", strsToJson st.obs), ("samp", strsToJson st.samp), ("byObs", gridToJson st.byObs),
+    ("bySamp", gridToJson st.bySamp)]
+
+/-- request {"src":…, "generated_by":…, "date": iso|null, "now": iso, "csr":…, "csc":…, "raw":…}
+    → holds/clause on the raw tree, the model tree, agreement, Lean's spec decoding of the raw tree -/
+def handle (req : Json) : R Json := do
+  let src ← asSrc (← fld req "src")
+  let raw ← asH5 (← fld req "raw")
+  let genBy ← strF req "generated_by"
+  let date ← optF asStr req "date"
+  let now ← strFD req "now" ""
+  let csr ← asCS (← fld req "csr")
+  let csc ← asCS (← fld req "csc")
+  let v := firstFailing (clauses Utf8.ident src raw)
+  let model := toH5 Utf8.ident DateC.ident src genBy date now csr csc
+  let (mj, modelHolds) : Json × Bool :=
+    match model with
+    | .ok h => (h5ToJson h, holds Utf8.ident src h)
+    | .error e => (errToJson e, false)
+  let rj := h5ToJson raw
+  let dec : Json := match specDecode Utf8.ident raw with
+    | .ok st => specToJson st
+    | .error e => errToJson e
+  pure (Json.mkObj (verdictToJson v ++ [("agree", .bool (mj.compress == rj.compress)),
+    ("model_holds", .bool modelHolds), ("model", mj), ("raw_canon", rj), ("decode", dec)]))
+
 end Biom.C04
